@@ -206,7 +206,8 @@ def run_case(text, ops):
         # what an operation answers is a function of the chart and the operation: the same operation on a freshly parsed copy,
         # with nothing asked before it, answers the same (checked for the value-producing operations, a bounded sample per case)
         idx = [k for k, op in enumerate(ops) if op[0] in ("tsat", "nps")]
-        idx = idx[:4] + idx[4:][-8:]  # the first few and the ones with the longest past
+        neg = [k for k in idx if ops[k][0] == "tsat" and ops[k][1] < 0][:6]  # refusals are where remembered state shows
+        idx = sorted(set(idx[:4] + idx[4:][-8:] + neg))  # the first few, the ones with the longest past, the refused ones
         for k in idx:
             fresh, _, _ = impl.parse(text)
             apply(fresh, twin, ops[k])
@@ -231,10 +232,14 @@ def slice(ctx: fw.Ctx) -> fw.Outcome:
         if rng.random() < 0.25:
             # a long tempo map (40 tempo events within a few hundred ticks): lookups deep into it, then again before its start
             t_, tempo_ = 0, []
+            # … either packed before most notes, or stretching far past the last note (parsing then never looks deep into it)
+            ends = [g.tick + gen.longest_truth(g) for tr in src.tracks for g in tr.groups] + [t for t, _, _ in src.gevents] + [0]
+            step = rng.randint(1, 9) if rng.random() < 0.5 else max(ends) // rng.choice([8, 16, 24]) + 1
             for _ in range(rng.randint(34, 48)):
                 tempo_.append((t_, rng.choice([120000, 60000, 90000, 150000, 200000])))
-                t_ += rng.randint(1, 9)
+                t_ += rng.randint(step, step + 8)
             src.tempo = tempo_
+            src.tss = [ts for ts in src.tss if ts[0] <= max(ends)] or [(0, 4, None)]
         if rng.random() < 0.15 and src.tracks:
             # a tempo so fast that neighbouring ticks share a microsecond: notes, phrases and events that coincide in time but not in tick
             src.res, src.meta["resolution"] = 192, 192
